@@ -1,7 +1,7 @@
 SPECIFICATION Spec
 CONSTANTS
   TS <- Q_TS
-  MS <- MC_MS
+  MS <- Q_MS
   SC <- MC_SC
   OPS <- MC_OPS
   BATCH <- MC_BATCH
